@@ -211,6 +211,9 @@ def run(rep: vk.Report):
         rep.violation({"kind": "correspondence", "obligation": "Hessian entry trees / compile path = model", "case": trees.terms[i][:6000],
                        "meta": trees.meta[i], "model": model, "witness": wit}, concrete=wit is not None)
     for i in nfails:
+        if common.sanitised_overflow(IMPORTS + " SemI HarnessI", DEFS, nums[i], "match c with (e, vi, vj, pts, ppts, _) => "
+                                     "enclosure (grad ln2c ln10c vj (grad ln2c ln10c vi e)) pts ppts end", [nmeta[i].get("value")]):
+            continue
         rep.violation({"kind": "numeric", "obligation": "compiled Hessian entry within the enclosure of the model's second derivative",
                        "case": nums[i][:3000], "witness": nmeta[i]}, concrete=True)
     cov = rep.coverage
